@@ -5,7 +5,9 @@ system at any queue position and timestep (also in the middle of a multi-step re
 outside between steps; afterwards the simulator keeps issuing requests and checks that nothing moves."""
 import logging
 
-from .common import (model_class, model_class, MAXSIZE, Model, ModelCompleteError, Rec, RefSched, SystemNotFoundError, gen_flavour, gen_prio, gen_window,
+import numpy          # (loaded once in the worker: forked runs must not import it each)
+
+from .common import (ambient_warnings, model_class, model_class, MAXSIZE, Model, ModelCompleteError, Rec, RefSched, SystemNotFoundError, gen_flavour, gen_prio, gen_window,
                      rec_class, spec_defaults)
 
 PROPERTY = "C06"
@@ -170,6 +172,7 @@ World.run_group = _run_group
 
 
 def execute(sc, ctx):
+    ambient_warnings(sc, ctx)
     try:
         _execute(sc, ctx)
     finally:
@@ -328,7 +331,6 @@ def _execute(sc, ctx):
                 ctx.probe("raising_request_inside_an_iterator")
             elif via in ("one", "numpy"):
                 # the flag as it comes out of a computation: the int 1 (a count, a bool sum) or a numpy bool (arr.any())
-                import numpy
                 ctx.expect_raises("throw_error", ModelCompleteError, sm.execute_systems, throw_error=1 if via == "one" else numpy.bool_(True))
                 ctx.probe("strictness_flag_truthy_but_not_the_True_singleton")
             else:
